@@ -45,7 +45,7 @@ func VerifC16_BlueGreen() {
 	logger := zzC16Logger{}
 	cache := &zzC16PodCache{pods: map[string]*api.Pod{}}
 	hc := haproxy.CreateInstance(logger, haproxy.InstanceOptions{}).Config()
-	c := &updater{haproxy: hc, logger: logger, cache: cache, options: &convtypes.ConverterOptions{Logger: logger}}
+	c := NewUpdater(hc, &convtypes.ConverterOptions{Logger: logger, Cache: cache}).(*updater)
 	iw := []int{1, 100}[nd.Choice("iw", 2)]
 	mode := []string{"deploy", "pod", "other"}[nd.Choice("mode", nd.Param("MODES", 3))]
 
